@@ -59,9 +59,9 @@ static econf_file *read_with(const char *opts, const char *delim, const char *co
 }
 
 /* ------------------------------------------------------------------ JOIN */
-static const char *JL[7] = { "k=a", "k=b", "k=", "k=a\n  c", "j=b", "j=", "[A]" };
+static const char *JL[8] = { "k=a", "k=b", "k=", "k=a\n  c", "j=b", "j=", "[A]", "[B]" };   /* two headers: a section can be re-opened behind another one */
 static int jl[8], jn;
-static void gen_join(void) { jn = mc_choose(Nmax + 1); for (int i = 0; i < jn; i++) jl[i] = mc_choose(7); }
+static void gen_join(void) { jn = mc_choose(Nmax + 1); for (int i = 0; i < jn; i++) jl[i] = mc_choose(8); }
 typedef struct { int sec; char key; char lines[24][8]; int n; char first[4][8]; int nfirst; int defs; } jent;
 static void exec_join(void)
 {
@@ -69,7 +69,7 @@ static void exec_join(void)
   jent E[8]; int ne = 0; int cur = 0;
   for (int i = 0; i < jn; i++) {
     sb_puts(&f, JL[jl[i]]); sb_putc(&f, '\n');
-    if (jl[i] == 6) { cur = 1; continue; }
+    if (jl[i] >= 6) { cur = jl[i] - 5; continue; }
     char key = JL[jl[i]][0];
     jent *e = NULL;
     for (int j = 0; j < ne; j++) if (E[j].sec == cur && E[j].key == key) e = &E[j];
@@ -92,7 +92,7 @@ static void exec_join(void)
     if (!kf) { mc_fail(sig.s, "read %s failed: %d; %s", join ? "with JOIN_SAME_ENTRIES=1" : "without option", rc, sig.s); break; }
     for (int i = 0; i < ne && !mc_case_failed; i++) for (int ext = 0; ext < 2; ext++) {
       char got[32][64]; char key[2] = { E[i].key, 0 }; int grc;
-      int n = got_lines(kf, E[i].sec ? "A" : NULL, key, got, 32, ext, &grc);
+      int n = got_lines(kf, E[i].sec == 1 ? "A" : E[i].sec == 2 ? "B" : NULL, key, got, 32, ext, &grc);
       int nw = join ? E[i].n : E[i].nfirst;
       int ok = grc == 0 && n == nw;
       for (int l = 0; ok && l < n; l++) if (strcmp(got[l], join ? E[i].lines[l] : E[i].first[l])) ok = 0;
@@ -100,7 +100,7 @@ static void exec_join(void)
         sbuf a = {0}, b = {0};
         for (int l = 0; l < n; l++) sb_printf(&a, "{%s}", got[l]);
         for (int l = 0; l < nw; l++) sb_printf(&b, "{%s}", join ? E[i].lines[l] : E[i].first[l]);
-        mc_fail(sig.s, "%s: [%s]%s via %s: rc=%d lines %s, expected %s (%s); %s", join ? "JOIN_SAME_ENTRIES=1" : "no option", E[i].sec ? "A" : "", key,
+        mc_fail(sig.s, "%s: [%s]%s via %s: rc=%d lines %s, expected %s (%s); %s", join ? "JOIN_SAME_ENTRIES=1" : "no option", E[i].sec == 1 ? "A" : E[i].sec == 2 ? "B" : "", key,
                 ext ? "econf_getExtValue" : "econf_getStringValue", grc, a.s ? a.s : "", b.s ? b.s : "",
                 join ? "lines of all definitions since the last empty one" : "first definition", sig.s);
         sb_free(&a); sb_free(&b);
